@@ -151,7 +151,7 @@ class FS:
 
 def r2(idx, rep):
     fi = idx.method("ResultSerializer", "get_run_dir")
-    rep.analysed(fi, idx.method("ResultSerializer", "_deref_paths_name"), idx.method("ResultSerializer", "get_run_dir_name_from_datetime"))
+    rep.analysed(fi, *K.opt(idx, "ResultSerializer", "_deref_paths_name"), idx.method("ResultSerializer", "get_run_dir_name_from_datetime"))
     T = "2026-01-02_03-04-05"
     bad = None
     n = 0
@@ -347,6 +347,37 @@ def _ult_roots(fi, e, seen=None, depth=8):
     return {unparse(e)}
 
 
+def _ult_roots_ip(idx, fi, e, depth=3):
+    """_ult_roots, with a path parameter of a private helper resolved at the helper's call sites (so that moving a write into a
+    helper that is handed the path changes nothing)"""
+    out = set()
+    for r in _ult_roots(fi, e):
+        if not (r.startswith("param:") and fi.qual not in WRITE_SITES and fi.name.startswith("_") and not fi.name.startswith("__") and depth > 0):
+            out.add(r)
+            continue
+        pname = r[6:]
+        params = [a.arg for a in fi.node.args.posonlyargs + fi.node.args.args]
+        if params and params[0] in ("self", "cls"):
+            params = params[1:]
+        sites = [(f, c) for f, c in K.callers_of(idx, fi) if (K.call_receiver(c) or "").split(".")[0] in ("self", "cls") and f.cls and
+                 (f.cls == fi.cls or fi.cls in [k.name for k in idx.mro(f.cls)] or f.cls in [k.name for k in idx.mro(fi.cls or "")])]
+        if not sites:
+            out.add(r)
+            continue
+        for f, c in sites:
+            arg = None
+            for k in c.keywords:
+                if k.arg == pname:
+                    arg = k.value
+            if arg is None and pname in params and params.index(pname) < len(c.args):
+                arg = c.args[params.index(pname)]
+            if arg is None:
+                out.add(r)
+            else:
+                out |= _ult_roots_ip(idx, f, arg, depth - 1)
+    return out
+
+
 def r4(idx, rep):
     files = [f for f in idx.files if f.startswith("csvpath/managers/results/") or f.startswith("csvpath/managers/run/") or f == "csvpath/util/line_spooler.py"]
     n = 0
@@ -380,7 +411,7 @@ def r4(idx, rep):
                 else:
                     continue
                 n += 1
-                roots = _ult_roots(fi, path)
+                roots = _ult_roots_ip(idx, fi, path)
                 own = K.owner_of(idx, fi, set(WRITE_SITES))
                 key = f"{rel}::{own or fi.qual} writes {'|'.join(sorted(roots))}"
                 allowed = WRITE_SITES.get(own)
